@@ -282,6 +282,25 @@ def conflict_profile(specs):
     return ",".join(parts) if parts else "no-shared-property"
 
 
+def shadowed_ambiguity(specs):
+    """True when every same-priority clash lies below a strictly better specification of the
+    same property (e.g. position@1+3+3): the reference (step 1) still calls it an ambiguity."""
+    found = False
+    byp = {}
+    for s in specs:
+        for p, k in s["prios"].items():
+            if p not in s["modifiable"]:
+                byp.setdefault(p, []).append(k)
+    for p, ks in byp.items():
+        dup = {k for k in ks if ks.count(k) > 1}
+        for k in dup:
+            if min(ks) < k:
+                found = True
+            else:
+                return False
+    return found
+
+
 def judge_builtin(case, res):
     """case = {"family": "builtin", "cls", "mode2D", "ids"}; res = hook result for it."""
     out = core.Outcome()
@@ -352,7 +371,10 @@ def judge_builtin(case, res):
         bad_kinds = [k for k in kinds_seen if k not in allowed]
         unsupported = [k for k in bad_kinds if k == "other:NotImplementedError"]
         if n_ok and n_ok < len(observed):
-            out.fail(f"resolve:{profile}|accepted-in-some-orders:expected-"
+            cellname = profile
+            if ref["kinds"] == {"ambiguous"} and shadowed_ambiguity(specs):
+                cellname = "shadowed-same-priority"  # one root cause whatever else is specified
+            out.fail(f"resolve:{cellname}|accepted-in-some-orders:expected-"
                      + "+".join(sorted(ref["kinds"])), source=src, mode2D=mode2D,
                      accepted_orders=[[ids[i] for i in o["perm"]] for o in res["outs"]
                                       if o["status"] == "ok"][:3],
@@ -479,7 +501,7 @@ def synthetic_cases(draw):
             if draw(st.integers(0, 2)) > 0:  # mostly acyclic: depend on later properties only
                 deps = [q for q in deps if q > p]
             defaults[p] = sorted(deps)
-    finals = [p for p in defaults if draw(st.integers(0, 9)) == 0]
+    final_draws = {p: draw(st.integers(0, 9)) == 0 for p in sorted(defaults)}
     nspecs = draw(st.integers(1, 4))
     specs = []
     have_mod = set()
@@ -501,12 +523,14 @@ def synthetic_cases(draw):
                              unique=True)) if len(prios) < len(SPROPS) else []
         specs.append({"name": f"S{i}", "prios": prios, "deps": sorted(deps),
                       "modifiable": modifiable})
+    # (a modifying specifier never touches a derived property: none of the built-in ones does)
+    modprops = {p for sp in specs if sp["modifiable"] for p in sp["prios"]}
+    finals = [p for p, f in final_draws.items() if f and p not in modprops]
     return {"family": "synthetic", "defaults": defaults, "finals": finals, "specs": specs}
 
 
 def judge_synthetic(case):
     from scenic.core.lazy_eval import DelayedArgument
-    from scenic.core.object_types import Object
     from scenic.core.specifiers import ModifyingSpecifier, Specifier
 
     out = core.Outcome()
@@ -564,8 +588,7 @@ def judge_synthetic(case):
                 objs.append(Specifier(s["name"], dict(s["prios"]), val))
         return dspecs, objs
 
-    class Probe(Object):  # only its (empty) set of final properties is used
-        pass
+    Probe = _probe_class()
 
     results = []
     for perm in itertools.permutations(range(len(specs))):
@@ -616,6 +639,21 @@ def judge_synthetic(case):
     return out
 
 
+_PROBE = []
+
+
+def _probe_class():
+    """A bare Constructible subclass: only _resolveSpecifiers / _finalProperties are used."""
+    if not _PROBE:
+        from scenic.core.object_types import Constructible
+
+        class Probe(Constructible):
+            _scenic_properties = {}
+
+        _PROBE.append(Probe)
+    return _PROBE[0]
+
+
 def _tok(v):
     if isinstance(v, tuple):
         return [_tok(x) for x in v]
@@ -643,10 +681,13 @@ def class_cases(draw):
                 for _ in range(draw(st.integers(0, 2))):
                     t = draw(st.sampled_from(["own", "own", "own", "builtin", "ghost"]))
                     if t == "own":
-                        q = draw(st.sampled_from([x for x in CPROPS if x != p]))
-                        if draw(st.integers(0, 3)) > 0 and not q > p:
-                            q = draw(st.sampled_from([x for x in CPROPS if x != p]))
-                        terms.append(["self", q])
+                        # (additive properties are tuples: not used as summands)
+                        cand = [x for x in CPROPS if x != p and x not in additive]
+                        if cand:
+                            q = draw(st.sampled_from(cand))
+                            if draw(st.integers(0, 3)) > 0 and not q > p:
+                                q = draw(st.sampled_from(cand))
+                            terms.append(["self", q])
                     elif t == "builtin":
                         terms.append(["self", draw(st.sampled_from(BUILTIN_READS))])
                     elif draw(st.integers(0, 3)) == 0:
@@ -669,7 +710,7 @@ def class_cases(draw):
 
 
 def emit_classes(case):
-    lines = []
+    lines = ["ego = new Object at (500, 500)"]
     for k, body in enumerate(case["classes"]):
         base = "" if k == 0 else f"(C{k - 1})"
         lines.append(f"class C{k}{base}:")
@@ -800,6 +841,12 @@ def judge_classes(case):
             elif "additive properties cannot be dynamic" in msg:
                 kind = "additive-dynamic"
         results = [["error", e, kind]]
+        if "dynamic" in feats and kind in ("missing-dependency", "cyclic"):
+            # defining a class with a dynamic property evaluates all defaults without any
+            # specifier; what that should do with defaults that need one is not documented
+            if ref_classes(dict(case, withs=[]))[0] == "error":
+                out.cls("unjudged:dynamic-defaults-evaluated-at-class-definition")
+                return out
     obs = []
     for r in results:
         if r[0] == "ok":
@@ -862,6 +909,10 @@ def _plain(v):
 # driver
 # --------------------------------------------------------------------------------------------
 
+def strategy():
+    return st.one_of(synthetic_cases(), synthetic_cases(), class_cases())
+
+
 def judge(case):
     fam = case["family"]
     if fam == "synthetic":
@@ -905,7 +956,6 @@ def run_shard(shard, tier):
                 table_checks(col, c06_hook.CONFIG["class_info"])
     col.extra["exhaustive_shards"] = 1
     col.extra["builtin_subsets"] = len(mine)
-    strat = st.one_of(synthetic_cases(), synthetic_cases(), class_cases())
-    core.hyp_search(strat, judge, shard["n"], shard["seed"], col, known_sigs=known,
+    core.hyp_search(strategy(), judge, shard["n"], shard["seed"], col, known_sigs=known,
                     case_timeout=120, shrink_s=20 if tier == "quick" else 60)
     return col.result()
